@@ -231,4 +231,136 @@ theorem ip4_upper (n : Nat) (d : Dep) (h : V4) (up : Upper) (tr : Bytes) (w : h.
   rw [if_neg (by have := f.len; omega), if_neg (by omega)]
   simp
 
+/-! ### IPv6 -/
+
+theorem v6_fixed_length (h : V6) (n k : Nat) : (h.fixed n k).length = 8 := by simp [V6.fixed, be2]
+
+structure V6Facts (h : V6) (n : Nat) (b tr : Bytes) : Prop where
+  len : 40 ≤ (h.fixed n b.length ++ (h.src ++ (h.dst ++ b)) ++ tr).length
+  nxt : u8 (h.fixed n b.length ++ (h.src ++ (h.dst ++ b)) ++ tr) 6 = n
+  body : ip6Body (h.fixed n b.length ++ (h.src ++ (h.dst ++ b)) ++ tr) = b
+  src : Bytes.slice (h.fixed n b.length ++ (h.src ++ (h.dst ++ b)) ++ tr) 8 24 = h.src
+  dst : Bytes.slice (h.fixed n b.length ++ (h.src ++ (h.dst ++ b)) ++ tr) 24 40 = h.dst
+
+theorem v6_facts (h : V6) (n : Nat) (b tr : Bytes) (h1 : h.src.length = 16) (h2 : h.dst.length = 16) (hn : n < 256)
+    (hb0 : 0 < b.length) (hb : b.length < 65536) : V6Facts h n b tr := by
+  have hf := v6_fixed_length h n b.length
+  have shape : h.fixed n b.length ++ (h.src ++ (h.dst ++ b)) ++ tr = h.fixed n b.length ++ (h.src ++ (h.dst ++ (b ++ tr))) := by
+    simp [List.append_assoc]
+  have e4 : u16 (h.fixed n b.length ++ (h.src ++ (h.dst ++ b)) ++ tr) 4 = b.length := by
+    rw [shape, u16_left _ _ _ (by omega)]
+    have : Bytes.slice (h.fixed n b.length) 4 6 = be2 b.length := by simp [Bytes.slice, V6.fixed, be2]
+    rw [u16, this, beNat_be2 _ hb]
+  refine ⟨by simp [hf, h1, h2]; omega, ?_, ?_, ?_, ?_⟩
+  · rw [shape, u8_left _ _ _ (by omega)]
+    simp [u8, V6.fixed, be2]; omega
+  · unfold ip6Body
+    simp only [e4]
+    rw [if_pos (by omega)]
+    have : h.fixed n b.length ++ (h.src ++ (h.dst ++ b)) ++ tr = (h.fixed n b.length ++ h.src ++ h.dst) ++ (b ++ tr) := by
+      simp [List.append_assoc]
+    rw [this, show (40 : Nat) = (h.fixed n b.length ++ h.src ++ h.dst).length + 0 by simp [hf, h1, h2], drop_len_add,
+      List.drop_zero, List.take_left]
+  · rw [shape]; exact slice_cursor _ _ _ _ _ hf (by omega)
+  · have : h.fixed n b.length ++ (h.src ++ (h.dst ++ b)) ++ tr = (h.fixed n b.length ++ h.src) ++ (h.dst ++ (b ++ tr)) := by
+      simp [List.append_assoc]
+    rw [this]; exact slice_cursor _ _ _ _ _ (by simp [hf, h1]) (by omega)
+
+/-- the IPv6 layer on an encoded packet, given what the extension-header walk yields -/
+theorem ip6_upper (m : Nat) (d : Dep) (D : Bytes) (up : Upper) (wu : up.WF) (k : Nat) (lf : Bool)
+    (hlen : 40 ≤ D.length) (hch : ip6Chain D = .ok ⟨some up.proto, up.encode, k, lf, 0⟩)
+    (hattr : ¬ (u8 D 6 = 44 ∧ lf = false))
+    (hpy : d.py + 5 ≤ 1000) (hc : d.c + 6 ≤ 1500) :
+    parse (m + 2) d .ip6 D = .ok {} := by
+  rw [parse, show Layer.ip6.cUnits = 3 from rfl, enter_ok d 3 (by omega)]
+  simp only [body, ip6Layer]
+  rw [need_ok _ (by simp; omega)]
+  have ht := try_upper m ((⟨d.py, d.c + 3⟩ : Dep) + 2) up wu (by simp; omega) (by simp; omega)
+  have hn5 : need ((⟨d.py, d.c + 3⟩ : Dep) + 5) = .ok () := need_ok _ (by simp; omega)
+  simp only [hch, ht, hn5, bind, Except.bind, pure, Except.pure]
+  rw [if_neg (by omega)]
+  have hattr' : ¬ (u8 D 6 = 44 ∧ (!lf) = true) := by
+    intro ⟨a, b⟩; exact hattr ⟨a, by cases lf <;> simp_all⟩
+  split <;> simp [hattr']
+
+/-! ### the extension-header chain -/
+
+def isFrag : Ext → Bool
+  | .fragment .. => true
+  | _ => false
+
+def lastFrag : List Ext → Bool → Bool
+  | [], lf => lf
+  | e :: es, _ => lastFrag es (isFrag e)
+
+/-- dpkt's extension-header class for `e` reads an encoded `e` back: its length, its Next Header, offset 0 -/
+def ExtOk (e : Ext) : Prop :=
+  ∀ (n : Nat) (rest : Bytes), n < 256 →
+    extHdr e.proto (e.encode n ++ rest) = .ok ((e.encode n).length, some n, isFrag e, 0)
+
+theorem ext_proto_isExt (e : Ext) : isExt e.proto = true := by cases e <;> simp [Ext.proto, isExt]
+
+theorem encChain_fst_lt (es : List Ext) (p : Nat) (up : Bytes) (hp : p < 256) : (encChain es p up).1 < 256 := by
+  cases es with
+  | nil => simpa [encChain]
+  | cons e es => cases e <;> simp [encChain, Ext.proto]
+
+theorem extWalk_chain (es : List Ext) (p : Nat) (up : Bytes) (hp : p < 256) (hpx : isExt p = false)
+    (hok : ∀ e ∈ es, ExtOk e) :
+    ∀ (fuel c : Nat) (lf : Bool), es.length < fuel →
+      extWalk fuel (encChain es p up).1 (encChain es p up).2 c lf 0 =
+        .ok ⟨some p, up, c + es.length, lastFrag es lf, 0⟩ := by
+  induction es with
+  | nil =>
+    intro fuel c lf hf
+    cases fuel with
+    | zero => simp at hf
+    | succ f => simp [encChain, extWalk, hpx, lastFrag]
+  | cons e es ih =>
+    intro fuel c lf hf
+    cases fuel with
+    | zero => simp at hf
+    | succ f =>
+      have hn := encChain_fst_lt es p up hp
+      have he := hok e (by simp) (encChain es p up).1 (encChain es p up).2 hn
+      have ih' := ih (fun e' h' => hok e' (by simp [h'])) f (c + 1) (isFrag e) (by simp at hf; omega)
+      simp only [encChain, extWalk, ext_proto_isExt, if_true, he, List.drop_left, ih', lastFrag, List.length_cons]
+      simp only [Except.ok.injEq, Chain.mk.injEq, true_and, and_true]
+      omega
+
+theorem extOk_routing (t s : Nat) (d : Bytes) (w : (Ext.routing t s d).WF) : ExtOk (.routing t s d) := by
+  intro n rest hn
+  obtain ⟨w8, wl⟩ := w
+  simp only [Ext.proto, Ext.encode, extHdr, isFrag]
+  simp [u8]
+  have e : ((4 + d.length) / 8 - 1) % 256 * 8 + 8 = d.length + 1 + 1 + 1 + 1 := by omega
+  rw [if_neg (by omega), Nat.mod_eq_of_lt hn, e]
+
+theorem extOk_fragment (i : Nat) (m : Bool) : ExtOk (.fragment i m) := by
+  intro n rest hn
+  simp only [Ext.proto, Ext.encode, extHdr, isFrag]
+  cases m <;> simp [u8, u16, Bytes.slice, Bytes.beNat, be4] <;> rw [if_neg (by omega), Nat.mod_eq_of_lt hn]
+
+theorem extOk_ah (spi seq : Nat) (icv : Bytes) (w : (Ext.ah spi seq icv).WF) : ExtOk (.ah spi seq icv) := by
+  intro n rest hn
+  obtain ⟨w4, wl⟩ := w
+  simp only [Ext.proto, Ext.encode, extHdr, isFrag]
+  simp [u8, be4]
+  have e : (((12 + icv.length) / 4 - 2) % 256 + 2) * 4 = icv.length + 1 + 1 + 1 + 1 + 1 + 1 + 1 + 1 + 1 + 1 + 1 + 1 := by
+    omega
+  rw [if_neg (by omega), Nat.mod_eq_of_lt hn, e]
+
+theorem ext_encode_pos (e : Ext) (n : Nat) : 1 ≤ (e.encode n).length := by
+  cases e <;> simp [Ext.encode]
+
+theorem encChain_length_ge (es : List Ext) (p : Nat) (up : Bytes) : es.length ≤ (encChain es p up).2.length := by
+  induction es with
+  | nil => simp
+  | cons e es ih =>
+    have := ext_encode_pos e (encChain es p up).1
+    simp only [encChain, List.length_cons, List.length_append]
+    omega
+
+theorem upper_not_ext (up : Upper) : isExt up.proto = false := by cases up <;> simp [Upper.proto, isExt]
+
 end TLX.Lemmas.Dissect
